@@ -605,30 +605,54 @@ theorem prefixPhase_g (b : Bytes) :
             (if ((Bytes.at b (b.index + 2)).isBufferEmpty && c.requiredIntegerDigits) = true then
               .error (.err "EmptyInteger" (b.index + 2))
              else .ok (true, Bytes.at b (b.index + 2)))
-           else .ok (true, Bytes.at b (b.index + 1)))
+           else .ok (if prefixRepair = true then (false, b) else (true, Bytes.at b (b.index + 1))))
          else .ok (false, b))
       else .ok (false, b) := by
+  have hr2 : readIfValue c .integer c.basePrefix c.caseSensitiveBasePrefix (Bytes.at b (b.index + 1)) =
+      .ok (if matchByte c.basePrefix c.caseSensitiveBasePrefix b.slc[b.index + 1]? = true then
+        (true, Bytes.at b (b.index + 2)) else (false, Bytes.at b (b.index + 1))) :=
+    readIfValue_g hc hb .integer (by decide) _ _ (Bytes.at b (b.index + 1))
   unfold prefixPhase
-  simp only [prefixRepair, Bool.false_eq_true, if_false]
-  by_cases hfmt : (c.feats.format && c.basePrefix ≠ 0) = true
-  · rw [if_pos hfmt, if_pos hfmt]
-    simp only [readIfValueCased_g hc hb .integer (by decide), bind, Except.bind]
-    by_cases h48 : (b.slc[b.index]? == some 48) = true
-    · rw [if_pos h48, if_pos h48]
-      have hr2 : readIfValue c .integer c.basePrefix c.caseSensitiveBasePrefix (Bytes.at b (b.index + 1)) =
-          .ok (if matchByte c.basePrefix c.caseSensitiveBasePrefix b.slc[b.index + 1]? = true then
-            (true, Bytes.at b (b.index + 2)) else (false, Bytes.at b (b.index + 1))) :=
-        readIfValue_g hc hb .integer (by decide) _ _ (Bytes.at b (b.index + 1))
-      simp only [if_true, hr2]
-      by_cases hm : matchByte c.basePrefix c.caseSensitiveBasePrefix b.slc[b.index + 1]? = true
-      · rw [if_pos hm, if_pos hm]
-        simp only [Bool.true_and, pure, Except.pure, at_index]
-      · rw [if_neg hm, if_neg hm]
-        simp only [Bool.false_and, Bool.false_eq_true, if_false, pure, Except.pure]
-    · rw [if_neg h48, if_neg h48]
-      simp only [Bool.false_eq_true, if_false, pure, Except.pure]
-  · rw [if_neg hfmt, if_neg hfmt]
-    rfl
+  by_cases hR : prefixRepair = true
+  · rw [if_pos hR]
+    unfold prefixPhaseRepaired
+    by_cases hfmt : (c.feats.format && c.basePrefix ≠ 0) = true
+    · rw [if_pos hfmt, if_pos hfmt]
+      simp only [readIfValueCased_g hc hb .integer (by decide), bind, Except.bind]
+      by_cases h48 : (b.slc[b.index]? == some 48) = true
+      · rw [if_pos h48, if_pos h48]
+        have hlt : b.index < b.slc.length := by
+          have : b.slc[b.index]? = some 48 := by simpa using h48
+          exact (List.getElem?_eq_some_iff.mp this).1
+        simp only [if_true, hr2]
+        by_cases hm : matchByte c.basePrefix c.caseSensitiveBasePrefix b.slc[b.index + 1]? = true
+        · rw [if_pos hm, if_pos hm]
+          simp only [if_true, pure, Except.pure, at_index]
+        · rw [if_neg hm, if_neg hm]
+          have hle : b.index ≤ (Bytes.at b (b.index + 1)).slc.length := by simp only [at_slc]; omega
+          simp only [Bool.false_eq_true, if_false, hle, if_true, hR, pure, Except.pure]
+          rfl
+      · rw [if_neg h48, if_neg h48]
+        simp only [Bool.false_eq_true, if_false, pure, Except.pure]
+    · rw [if_neg hfmt, if_neg hfmt]
+      rfl
+  · rw [if_neg hR]
+    unfold prefixPhaseCurrent
+    by_cases hfmt : (c.feats.format && c.basePrefix ≠ 0) = true
+    · rw [if_pos hfmt, if_pos hfmt]
+      simp only [readIfValueCased_g hc hb .integer (by decide), bind, Except.bind]
+      by_cases h48 : (b.slc[b.index]? == some 48) = true
+      · rw [if_pos h48, if_pos h48]
+        simp only [if_true, hr2]
+        by_cases hm : matchByte c.basePrefix c.caseSensitiveBasePrefix b.slc[b.index + 1]? = true
+        · rw [if_pos hm, if_pos hm]
+          simp only [Bool.true_and, pure, Except.pure, at_index]
+        · rw [if_neg hm, if_neg hm]
+          simp only [Bool.false_and, Bool.false_eq_true, if_false, pure, Except.pure, hR]
+      · rw [if_neg h48, if_neg h48]
+        simp only [Bool.false_eq_true, if_false, pure, Except.pure]
+    · rw [if_neg hfmt, if_neg hfmt]
+      rfl
 
 /-- the base-prefix phase under truncation; when integer digits are required the cut must lie strictly after the
 prefix (otherwise the complete parser reports `EmptyInteger` there — and so does the partial parser, later) -/
@@ -672,22 +696,39 @@ theorem prefixPhase_trunc (b b' : Bytes) (isP : Bool) (hv : Bytes.Valid b) (h : 
           rw [if_neg hX]
           rfl
       · next hm =>
-        simp only [Except.ok.injEq, Prod.mk.injEq] at h
-        obtain ⟨rfl, rfl⟩ := h
-        refine ⟨rfl, by simp, by simp only [Bytes.Valid, at_index, at_slc]; omega, ?_⟩
-        intro n hn _
-        simp only [at_index] at hn
-        rw [prefixPhase_g hc hb, if_pos hfmt]
-        rw [show (trunc n b).slc[(trunc n b).index]? = b.slc[b.index]? from
-          take_get_lt _ _ _ (by simp only [trunc_index]; omega), if_pos h48]
-        have : matchByte c.basePrefix c.caseSensitiveBasePrefix (trunc n b).slc[(trunc n b).index + 1]? = false := by
+        have hmt : ∀ n, matchByte c.basePrefix c.caseSensitiveBasePrefix (trunc n b).slc[(trunc n b).index + 1]? = false := by
+          intro n
           by_cases hlt3 : b.index + 1 < n
           · rw [show (trunc n b).slc[(trunc n b).index + 1]? = b.slc[b.index + 1]? from take_get_lt _ _ _ hlt3]
             simpa using hm
           · rw [show (trunc n b).slc[(trunc n b).index + 1]? = none from take_get_ge _ _ _ (by simp only [trunc_index]; omega)]
             exact matchByte_none _ _
-        rw [this]
-        rfl
+        by_cases hR : prefixRepair = true
+        · -- repaired: the iterator is given back, `is_prefix = false`
+          rw [if_pos hR] at h
+          simp only [Except.ok.injEq, Prod.mk.injEq] at h
+          obtain ⟨rfl, rfl⟩ := h
+          refine ⟨rfl, Nat.le_refl _, hv, ?_⟩
+          intro n hn _
+          rw [prefixPhase_g hc hb, if_pos hfmt, get_trunc]
+          by_cases hlt3 : b.index < n
+          · rw [if_pos hlt3, if_pos h48, hmt n, if_pos hR]
+            simp
+          · have : ((if b.index < n then b.slc[b.index]? else none) == some 48) = false := by
+              rw [if_neg hlt3]; rfl
+            rw [this]
+            rfl
+        · rw [if_neg hR] at h
+          simp only [Except.ok.injEq, Prod.mk.injEq] at h
+          obtain ⟨rfl, rfl⟩ := h
+          refine ⟨rfl, by simp, by simp only [Bytes.Valid, at_index, at_slc]; omega, ?_⟩
+          intro n hn _
+          simp only [at_index] at hn
+          rw [prefixPhase_g hc hb, if_pos hfmt]
+          rw [show (trunc n b).slc[(trunc n b).index]? = b.slc[b.index]? from
+            take_get_lt _ _ _ (by simp only [trunc_index]; omega), if_pos h48]
+          rw [hmt n, if_neg hR]
+          rfl
     · next h48 =>
       simp only [Except.ok.injEq, Prod.mk.injEq] at h
       obtain ⟨rfl, rfl⟩ := h
